@@ -851,6 +851,14 @@ class Explorer:
                         else:
                             P.oblige(f'{c.short}#frame[{pth}]', 'frame', False)
                         continue
+                    if (isinstance(pv, tuple) and isinstance(cv, tuple) and len(pv) == len(cv) and pv
+                            and all(isinstance(x, SObj) and isinstance(y, SObj) and x.name is not None and x.name == y.name
+                                    for x, y in zip(cv, pv))):
+                        # c14y: a fixed-shape tuple of input objects (override `tuple[A, B]`) that was forced before the
+                        # snapshot: tuples are immutable, the elements are the same objects -- check their fields
+                        for i_, (x, y) in enumerate(zip(cv, pv)):
+                            walk(x, y, f'{pth}.{i_}')
+                        continue
                     eq = P.equal(cv, pv) if not isinstance(pv, (Opaque,)) else (cv is pv)
                     P.oblige(f'{c.short}#frame[{pth}]', 'frame', P.truthy(eq))
         for p, v in bound.items():
